@@ -4,8 +4,21 @@ import random
 from . import framework, gen_trace
 
 PROBE = ('(do (step (- INDEX)) (let ([r (list MAX-INDEX INDEX (find (= top.clk 1)) (count top.a) '
-         '(map (fn [i] (do (set-index i) (list INDEX TS top.cnt top.d top.a v (reval top.cnt 1) (reval v -1)))) (range (+ MAX-INDEX 1))))]) '
+         '(map (fn [i] (do (set-index i) (list INDEX TS top.cnt top.d top.a v (reval top.cnt 1) (reval v -1) vn))) (range (+ MAX-INDEX 1))))]) '
          '(step (- INDEX)) r))')
+
+
+def csv_text(den):
+    """the same samples as a logic-analyser CSV (columns named like the signals, time in seconds)"""
+    names = ['top.clk', 'top.a', 'top.d', 'top.cnt']
+    rows = ['Time [s],' + ','.join(names)]
+    for i, t in enumerate(den['timestamps']):
+        cells = []
+        for n in names:
+            v = den['values'][n][i]
+            cells.append(bin(v)[2:] if isinstance(v, int) else v)
+        rows.append(f'{t // 10 ** 9}.{t % 10 ** 9:09d},' + ','.join(cells))
+    return '\n'.join(rows) + '\n'
 
 
 def _v(x):
@@ -24,7 +37,7 @@ class C19(framework.PropertyCheck):
     pid = 'C19'
     quick_cases = 300
     thorough_cases = 6000
-    rule = ('generated trace (N<=9, one virtual signal) x history (len<=5) of sample-at L (increasing, with repeats, from find, singleton, '
+    rule = ('generated trace (N<=9, as VCD or — 30 % — the same samples as CSV; two virtual signals, one of them reading the next sample) x history (len<=5) of sample-at L (increasing, with repeats, from find, singleton, '
             'full range, shuffled) / trim-trace m (below, at, above MAX-INDEX) / navigation, each followed by a full probe of every new '
             'index (INDEX TS signals virtual signal @+1 @-1) and of find/count; thorough adds all L over indices of N<=4 with len<=3, '
             'applied twice; non-trivial = some L with a repeat or non-monotone order, or a second resampling')
@@ -57,7 +70,10 @@ class C19(framework.PropertyCheck):
                     ops.append(['trim', rng.randint(0, N + 1)])
                 else:
                     ops.append(['goto', rng.randint(0, N - 1)])
-            yield {'N': N, 'seed': seed, 'ops': ops}
+            c = {'N': N, 'seed': seed, 'ops': ops}
+            if rng.random() < 0.3:
+                c['csv'] = True        # the CSV reader has its own copy of the resampling code
+            yield c
         if tier == 'thorough':
             import itertools
             for N in (2, 3, 4):
@@ -73,8 +89,12 @@ class C19(framework.PropertyCheck):
         N = case['N']
         cur = list(range(N))
         mx = N - 1
-        steps = [('loadvcd', 't0', gen_trace.render(vf)), ('eval', 'eorg', '(defsig v (+ top.cnt 1))')]
-        exps = [('ok',), ('any',)]
+        load = ('loadcsv', 't0', csv_text(den)) if case.get('csv') else ('loadvcd', 't0', gen_trace.render(vf))
+        # vn depends on the neighbouring sample: what it caches is only valid for the sampling it was computed under
+        steps = [load, ('eval', 'eorg', '(defsig v (+ top.cnt 1))'), ('eval', 'eorg', '(defsig vn (reval top.cnt 1))')]
+        exps = [('ok',), ('any',), ('any',)]
+
+        trimmed = [False]
 
         def probe():
             vis = cur[:mx + 1]
@@ -85,7 +105,10 @@ class C19(framework.PropertyCheck):
                 nxt = ('I', den['values']['top.cnt'][vis[j + 1]]) if j + 1 <= mx else ('B', False)
                 prv = ('I', den['values']['top.cnt'][vis[j - 1]] + 1) if j - 1 >= 0 else ('B', False)
                 rows.append(('L', True, (('I', j), ('I', den['timestamps'][o]), _v(den['values']['top.cnt'][o]), _v(den['values']['top.d'][o]),
-                                         _v(den['values']['top.a'][o]), ('I', den['values']['top.cnt'][o] + 1), nxt, prv)))
+                                         _v(den['values']['top.a'][o]), ('I', den['values']['top.cnt'][o] + 1), nxt, prv,
+                                         # what a virtual signal that reads beyond the new end reports at the last index after a trim is
+                                         # not fixed by the property ("values at indices <= m unchanged" vs "behaves like its body")
+                                         ('ANY',) if (trimmed[0] and j == mx) else nxt)))
             return ('L', True, (('I', mx), ('I', 0), ('L', False, tuple(('I', j) for j in clk)), ('I', cnt_a), ('L', False, tuple(rows))))
 
         steps.append(('eval', 'eorg', PROBE))
@@ -112,12 +135,15 @@ class C19(framework.PropertyCheck):
                 cur = dedup(Lr)
                 mx = len(cur) - 1
                 pos = 0
+                trimmed[0] = False
                 steps.append(('eval', 'eorg', '(list INDEX MAX-INDEX)'))
                 exps.append(('val', ('L', True, (('I', 0), ('I', mx)))))
             elif op[0] == 'trim':
                 if pos > op[1]:
                     continue      # trimming below the current position is outside the property (the index is not moved)
                 steps.append(('eval', 'eorg', f"(trim-trace 't0 {op[1]})"))
+                if op[1] < mx:
+                    trimmed[0] = True
                 mx = min(op[1], mx)
                 exps.append(('val', ('I', mx)))
             elif op[0] == 'goto':
@@ -144,7 +170,7 @@ class C19(framework.PropertyCheck):
             o = iobs[k]
             if ex[0] == 'ok' and o[0] != 'ok':
                 return {'what': 'load failed', 'obs': o}
-            if ex[0] == 'val' and (o[0] != 'ok' or o[1] != ex[1]):
+            if ex[0] == 'val' and (o[0] != 'ok' or not _match(o[1], ex[1])):
                 return {'what': 'resampled/trimmed trace differs from the original at the selected samples', 'query': st[2][:120],
                         'got': o, 'want': ex[1], 'ops': case['ops'], 'N': case['N']}
         return None
@@ -160,6 +186,14 @@ class C19(framework.PropertyCheck):
 
     def classify(self, case):
         return ','.join(o[0] for o in case['ops'])[:40]
+
+
+def _match(got, want):
+    if want == ('ANY',):
+        return True
+    if want[0] == 'L' and got[0] == 'L':
+        return got[1] == want[1] and len(got[2]) == len(want[2]) and all(_match(g, w) for g, w in zip(got[2], want[2]))
+    return got == want
 
 
 CHECK = C19()
